@@ -5,6 +5,7 @@ import io
 import logging
 import random
 import urllib.error
+import urllib.request
 import sys
 import threading
 import time
@@ -29,6 +30,7 @@ class _OpenerProxy:
 
 
 _impl = getattr(conn_http, "_HttpConnImpl", None)
+_REAL_MAKE_OPENER = _impl.__dict__.get("_make_opener") if _impl is not None else None
 if _impl is not None and hasattr(_impl, "_make_opener"):
     _impl._make_opener = staticmethod(lambda *args, **kwargs: _OpenerProxy())
 
@@ -63,13 +65,15 @@ FLOORS = {"quick": {"requests_through_connections_whose_adapter_supplies_the_id"
                     "distinct_nontrivial": 20, "requests_observed": 5000, "yields_injected": 2000,
                     "offsets_where_A_was_held": 40, "scenarios_where_B_ran_inside_gap": 10,
                     "distinct_interleavings": 10, "long_run_requests": 10001,
-                    "holds_of_several_seconds_inside_the_generator": 1, "calls_refused_before_anything_was_sent": 20},
+                    "holds_of_several_seconds_inside_the_generator": 1, "calls_refused_before_anything_was_sent": 20,
+                    "redirects_followed": 60, "requests_through_the_real_opener": 200},
           "thorough": {"requests_through_connections_whose_adapter_supplies_the_id": 1700,
                        "connections_described_between_requests": 740, "rounds_where_the_creating_thread_sends_requests": 12,
                        "distinct_nontrivial": 300, "requests_observed": 200000, "yields_injected": 100000,
                        "offsets_where_A_was_held": 1500, "scenarios_where_B_ran_inside_gap": 400,
                        "distinct_interleavings": 400, "long_run_requests": 100001,
-                       "holds_of_several_seconds_inside_the_generator": 4, "calls_refused_before_anything_was_sent": 500}}
+                       "holds_of_several_seconds_inside_the_generator": 4, "calls_refused_before_anything_was_sent": 500,
+                       "redirects_followed": 1500, "requests_through_the_real_opener": 5000}}
 LEVEL_TEXT = ("Runtime monitoring of real threads: an offline checker compares the recorded request history with a "
               "sequential counter model after (1) stress rounds with injected yields inside the id generator and (2) "
               "a systematic sweep that forces one pre-emption at every bytecode offset of the generator. The evidence "
@@ -137,6 +141,17 @@ def request_id_of(request):
     return None
 
 
+def is_own(x):
+    """the caller's own ids: "own-..." (text, or bytes the caller has encoded itself) and the empty string"""
+    return x == "" or (isinstance(x, bytes) and x.startswith(b"own-")) or (isinstance(x, str) and x.startswith("own-"))
+
+
+def own_id_for(i, k):
+    if k % 20 != 3:
+        return ""
+    return ("own-%d-%d-\u00e9" % (i, k)).encode() if k % 40 == 23 else f"own-{i}-{k}"
+
+
 def judge_history(ctx, reqs, n_own_expected, own_expected, case, tids=None, adapter_ids=None):
     """the sequential counter model over a recorded history"""
     ids = [(tid, request_id_of(r)) for tid, r in reqs]
@@ -146,10 +161,10 @@ def judge_history(ctx, reqs, n_own_expected, own_expected, case, tids=None, adap
         ctx.violation("request-without-id", {"count": len(missing)}, case)
         return None
     # (the caller's own ids: "own-..." and the empty string)
-    own = [x for _, x in ids if x == "" or x.startswith("own-")]
-    gen = [(tid, x) for tid, x in ids if not (x == "" or x.startswith("own-"))]
+    own = [x for _, x in ids if is_own(x)]
+    gen = [(tid, x) for tid, x in ids if not is_own(x)]
     own_expected = list(own_expected) + list(adapter_ids or [])
-    if sorted(own) != sorted(own_expected):
+    if sorted(own, key=repr) != sorted(own_expected, key=repr):
         ctx.violation("caller-supplied-id-not-sent-unchanged-exactly-once",
                       {"sent": len(own), "expected": len(own_expected)}, case)
     gen_ids = [x for _, x in gen]
@@ -419,7 +434,7 @@ def stress_round(ctx, seed, interleavings, case_no):
                 elif shape == 4:
                     kw['raw_response'] = True
                 if k % 10 == 3 and not uses_id_adapter(i):
-                    own_id = f"own-{i}-{k}" if k % 20 == 3 else ""
+                    own_id = own_id_for(i, k)
                     # (the caller's headers may be a case-insensitive container, the key spelled in lower case)
                     verb("/p", headers=(CIDict({'x-request-id': own_id}) if k % 40 == 3 else {'X-Request-ID': own_id}),
                          **kw)
@@ -448,7 +463,7 @@ def stress_round(ctx, seed, interleavings, case_no):
 
     for i in range(n_threads):
         if not uses_id_adapter(i):
-            own_expected.extend((f"own-{i}-{k}" if k % 20 == 3 else "") for k in range(n_req) if k % 10 == 3)
+            own_expected.extend(own_id_for(i, k) for k in range(n_req) if k % 10 == 3)
     # (in every other round the thread that made the connections is one of the requesting threads)
     creator_works = case_no % 2 == 1
     threads = [threading.Thread(target=worker, args=(i,)) for i in range(1 if creator_works else 0, n_threads)]
@@ -556,6 +571,96 @@ def independent_roots(ctx):
                               {"requests_made": n, "requests_seen": len(op.reqs), "addresses": [addr_a, addr_b]}, case)
                 break
             judge_history(ctx, op.reqs, None, [], case)
+
+
+class WireHandler(urllib.request.BaseHandler):
+    """stands where the socket would be: the LAST handler of the connection's own urllib opener. Every request
+    that would go to the network - also the follow-up request of a redirect - is recorded; paths starting
+    with /moved are answered with a redirect"""
+    handler_order = 100         # (in front of the real HTTPHandler, which is never reached)
+
+    def __init__(self):
+        self.hops = []
+
+    def http_open(self, req):
+        import email.message
+        import urllib.response
+        self.hops.append(req)
+        hdrs = email.message.Message()
+        path = req.full_url.split("h.example", 1)[-1]
+        code = 200
+        if path.startswith("/moved"):
+            code = (301, 302, 303, 307)[len(self.hops) % 4]
+            hdrs['Location'] = "http://h.example/final" + path[len("/moved"):]
+        hdrs['Content-Type'] = "application/json"
+        resp = urllib.response.addinfourl(io.BytesIO(b"{}"), hdrs, req.full_url, code)
+        resp.msg = "OK" if code == 200 else "Moved"
+        resp.getheaders = lambda: list(hdrs.items())
+        resp._method = req.get_method()         # (as http.client.HTTPResponse has it)
+        return resp
+
+    https_open = http_open
+
+
+def redirect_history(ctx, seed):
+    """requests that go through the connection's OWN urllib opener (only the socket is replaced): the server answers
+    some of them with a redirect, urllib follows it. Whatever hop of a request carries an id carries the id of that
+    request - the caller's own one if the caller gave one - and own ids still use up no number"""
+    if _REAL_MAKE_OPENER is None:
+        return
+    rng = random.Random(seed)
+    stub = _impl.__dict__["_make_opener"]
+    _impl._make_opener = _REAL_MAKE_OPENER
+    try:
+        base = conn_http.HttpConn("http://h.example")
+    finally:
+        _impl._make_opener = stub
+    wire = WireHandler()
+    try:
+        base.conn_impl.opener.add_handler(wire)
+    except AttributeError:
+        ctx.inconclusive_note("the connection has no urllib opener to attach the wire handler to")
+        return
+    conns = [base, conn_http.BAuthConn(base, "u", "p"),
+             conn_http.HttpConn(base, adapters=conn_http.RequestAdapterAddPathPrefix("/moved"))]
+    case = {"workload": "redirects", "seed": seed}
+    first_hops, own = [], []
+    for k in range(60):
+        c = conns[rng.randrange(3)]
+        path = rng.choice(["/p", "/p", "/moved/here", "/moved"])
+        verb = rng.choice(["get", "get", "delete", "post"])
+        kw = {}
+        own_id = None
+        if rng.random() < 0.3:
+            own_id = "own-r-%d" % k
+            kw['headers'] = {'X-Request-ID': own_id}
+        n0 = len(wire.hops)
+        try:
+            getattr(c, verb)(path, **kw)
+        except urllib.error.HTTPError:
+            pass        # (urllib does not follow every redirect of every verb: the caller gets the error)
+        except Exception as err:
+            ctx.violation("request-raises-under-concurrency", {"errors": [repr(err)]}, case)
+            return
+        hops = wire.hops[n0:]
+        if not hops:
+            ctx.violation("request-without-id", {"count": 1, "note": "nothing reached the wire"}, case)
+            return
+        ctx.count("requests_through_the_real_opener")
+        first_hops.append((0, hops[0]))
+        if own_id is not None:
+            own.append(own_id)
+        if len(hops) > 1:
+            ctx.count("redirects_followed")
+            first = request_id_of(hops[0])
+            for h in hops[1:]:
+                rid = request_id_of(h)
+                if rid is not None and rid != first:
+                    ctx.violation("caller-supplied-id-not-sent-unchanged-exactly-once" if own_id is not None else
+                                  "redirected-request-changes-its-id",
+                                  {"first_hop": first, "later_hop": rid, "verb": verb, "path": path}, case)
+                    return
+    judge_history(ctx, first_hops, None, own, case)
 
 
 def offset_scenario(ctx, off, variant, hold=0.05):
@@ -673,6 +778,9 @@ def run_shard(ctx):
     for i in range(ctx.cases):
         ctx.evaluated()
         stress_round(ctx, hash((ctx.seed, ctx.shard, i)) & 0xffffffff, interleavings, i)
+    for k in range(3 if ctx.tier == "quick" else 10):
+        ctx.evaluated()
+        redirect_history(ctx, hash((ctx.seed, ctx.shard, "redirects", k)) & 0xffffffff)
     if ctx.shard == 0:
         independent_roots(ctx)
         ctx.evaluated()
@@ -701,6 +809,8 @@ def replay(ctx, case):
     ctx.evaluated()
     if case["workload"] == "independent-roots":
         independent_roots(ctx)
+    elif case["workload"] == "redirects":
+        redirect_history(ctx, case["seed"])
     elif case["workload"] == "first-requests":
         first_requests_race(ctx, case["seed"], case["rounds"])
     elif case["workload"] == "long":
